@@ -37,7 +37,7 @@ def one(m):
 
 
 rows = []
-with ThreadPoolExecutor(4) as ex:
+with ThreadPoolExecutor(int(os.environ.get("ST_JOBS", "4"))) as ex:
     for m, status, res in ex.map(one, muts):
         caught = [p for p, (rc, _, _) in res.items() if rc == 1]
         line = '| %s | %s | %s | %s |' % (m['name'], ', '.join(m['props']), status if status != 'ok' else
